@@ -14,7 +14,7 @@
                    (int8..uint64 by value, float32/float64 by value); every other type is kept as is
      path_spec     bin -> str on the msgpack /1/events path (finding C20-event-msgpack-bin-becomes-str),
                    identity on every other path *)
-From Refinery Require Import Lib.Base Lib.SMap_route2 Model.Payload Proofs.Payload.
+From Refinery Require Import Lib.Base Lib.SMap_route2 Gen.GenC20 Model.Payload Proofs.Payload.
 
 (* Full statement, for every payload with unique keys, every configuration, every path and every
    sequence of collector operations. [widen] is Go's exact float32->float64 conversion. *)
@@ -57,6 +57,18 @@ Theorem C20_strings_exact : forall (widen : N -> N) pa c ua fs ops out k s,
 Proof. exact strings_exact. Qed.
 Print Assumptions C20_strings_exact.
 
+(* Two hops: a span forwarded to its owner and forwarded again by the owner (after its collector's
+   operations) still carries the client's fields. *)
+Theorem C20_two_hops_preserve_fields : forall (widen : N -> N) pa c ua fs out1 c2 ua2 ops2 out2 k,
+  NoDup (skeys fs) ->
+  forward widen pa c ua fs [] = Some out1 ->
+  forward widen PBatchMsgp c2 ua2 out1 ops2 = Some out2 ->
+  reserved k = false -> ~ In k (set_keys ops2) ->
+  option_map (canon widen) (slookup k out2) =
+  option_map (fun v => canon widen (path_spec pa v)) (slookup k fs).
+Proof. exact two_hops_preserve. Qed.
+Print Assumptions C20_two_hops_preserve_fields.
+
 (* "msgpack values keep their encoded type" is false on the msgpack /1/events path: a bin value
    leaves as str (the faithful model reproduces it; replayed on the Go code it is the known finding). *)
 Theorem C20_event_msgpack_bin_type_refuted :
@@ -66,6 +78,13 @@ Theorem C20_event_msgpack_bin_type_refuted :
     slookup k fs = Some (VBin s) /\ slookup k out = Some (VStr s).
 Proof. exact event_msgpack_bin_refuted. Qed.
 Print Assumptions C20_event_msgpack_bin_type_refuted.
+
+(* The facts about the Go source the model and the proofs rest on, recomputed by the translator on
+   every run: MarshalMsg's three skip conditions, memoised time.Time written with AppendTimeExt at
+   every depth, and the metadataFields table (all names start with "meta.", known types, no duplicates). *)
+Theorem C20_source_facts : marshal_shape_ok && time_standard && table_ok GenC20.metadata_fields = true.
+Proof. exact source_facts_true. Qed.
+Print Assumptions C20_source_facts.
 
 (* Non-vacuity: a msgpack batch event with a sampler key field holding a timestamp, a nested map, a
    uint that is re-encoded as a fixint, a reserved name of the wrong type (dropped, as the property
